@@ -388,6 +388,9 @@ class World:
     def __init__(self, cfg, resources=None):
         self.cfg = cfg
         self.klass = env.cls(cfg.clsname)
+        self.threading_off = getattr(cfg, "options", {}).get("threading") is False
+        if self.threading_off:
+            self.klass.disable_multithreading()  # exercises the non-atomic in-place write path
         self.resources = resources or [env.resource_for(cfg.clsname, i) for i in cfg.initial]
         self.objects = []
         self.obj_res = []
@@ -677,6 +680,8 @@ def _teardown(world):
             except Exception:  # noqa: BLE001
                 pass
     finally:
+        if getattr(world, "threading_off", False):
+            world.klass.enable_multithreading()
         world.destroy()
 
 
